@@ -463,12 +463,24 @@ fn histories(ctx: &Ctx, rep: &mut Report) {
                 let mut rq = Req::new();
                 for h in &seq {
                     match h {
-                        H::SetCf(id) => rq.message.set_content_format(ContentFormat::try_from(*id as usize).unwrap()),
-                        H::RawCf(v) => rq.message.add_option(CoapOption::ContentFormat, v.clone()),
-                        H::SetObs(reg_) => rq.set_observe_flag(if *reg_ { ObserveOption::Register } else { ObserveOption::Deregister }),
-                        H::RawObs(v) => rq.message.add_option(CoapOption::Observe, v.clone()),
-                        H::SetPath(p) => rq.set_path(p),
-                        H::RawPath(p) => rq.message.add_option(CoapOption::UriPath, p.as_bytes().to_vec()),
+                        H::SetCf(id) => {
+                            let _ = rq.message.set_content_format(ContentFormat::try_from(*id as usize).unwrap());
+                        }
+                        H::RawCf(v) => {
+                            let _ = rq.message.add_option(CoapOption::ContentFormat, v.clone());
+                        }
+                        H::SetObs(reg_) => {
+                            let _ = rq.set_observe_flag(if *reg_ { ObserveOption::Register } else { ObserveOption::Deregister });
+                        }
+                        H::RawObs(v) => {
+                            let _ = rq.message.add_option(CoapOption::Observe, v.clone());
+                        }
+                        H::SetPath(p) => {
+                            let _ = rq.set_path(p);
+                        }
+                        H::RawPath(p) => {
+                            let _ = rq.message.add_option(CoapOption::UriPath, p.as_bytes().to_vec());
+                        }
                         H::SetStatus(b) => {
                             let mut rs = CoapResponse { message: rq.message.clone() };
                             if let MessageClass::Response(s) = MessageClass::from(*b) {
@@ -482,7 +494,9 @@ fn histories(ctx: &Ctx, rep: &mut Report) {
                                 rq.set_method(m);
                             }
                         }
-                        H::ClearAll => rq.message.clear_all_options(),
+                        H::ClearAll => {
+                            let _ = rq.message.clear_all_options();
+                        }
                     }
                 }
                 let rs = CoapResponse { message: rq.message.clone() };
